@@ -175,9 +175,38 @@ def _secshape(sec):
 
 # ------------------------------------------------------------------ oracles (cheap invariants on the implementation)
 
+# known answers (consensus facts, written by hand): script -> final stack; they give a concrete failing input when an
+# opcode table entry is swapped (the model follows the table, so the correspondence alone stays green)
+KAT = {
+    "5253 93": "05", "5253 94": "81", "5253 9a": "01", "0053 9b": "01", "5353 9c": "01", "5253 9e": "01", "5253 9f": "01",
+    "5253 a0": "-", "5253 a1": "01", "5253 a2": "-", "5253 a3": "02", "5253 a4": "03", "525153 a5": "01", "515253 a5": "-", "525254 a5": "01",
+    "52 8b": "03", "52 8c": "01", "52 8f": "82", "4f 90": "01", "00 91": "01", "52 92": "01",
+    "5152 6d": "~", "5152 6e": "01,02,01,02", "515253 6f": "01,02,03,01,02,03", "51525354 70": "01,02,03,04,01,02",
+    "515253545556 71": "03,04,05,06,01,02", "51525354 72": "03,04,01,02", "51 73": "01,01", "00 73": "-", "5152 74": "01,02,02",
+    "5152 75": "01", "51 76": "01,01", "5152 77": "02", "5152 78": "01,02,01", "51525351 79": "01,02,03,02", "51525351 7a": "01,03,02",
+    "515253 7b": "02,03,01", "5152 7c": "02,01", "5152 7d": "02,01,02", "020102 82": "0102,02", "5151 87": "01", "5152 87": "-",
+    "51 6b6c": "01", "51 63 52 67 53 68": "02", "00 63 52 67 53 68": "03", "51 64 52 67 53 68": "03", "51 69 52": "02", "51 61": "01",
+    "00 a8": "e3b0c44298fc1c149afbf4c8996fb92427ae41e4649b934ca495991b7852b855",
+    "00 a7": "da39a3ee5e6b4b0d3255bfef95601890afd80709", "00 a6": "9c1185a5c5e9fc54612808977ee8f548b2258d31",
+    "00 a9": "b472a266d0bd89c13706a4132ccfb16f7c3b9fcb", "00 aa": "5df6e0e2761359d30a8275058e299fcc0381534545f55cf43e41983f5d4c9456",
+}
+
+
+def _kat_line(k):
+    return "vm_eval 0 0 %s ~ 0:0:1:0 ~" % k.replace(" ", "")
+
+
+KAT_LINES = {_kat_line(k): v for k, v in KAT.items()}
+
+
 def oracle(op: str, out: str):
     a = op.split(" ")
     k = a[0]
+    if op in KAT_LINES:
+        want = KAT_LINES[op]
+        got = out.split(" ")[1] if out.startswith("ok ") else out
+        if got != want:
+            return "known answer: script %s must leave the stack %s" % (a[3], want)
     if k == "vm_num_enc" and out.startswith("ok "):
         back = impl("vm_num_dec %s 1" % out[3:])
         if back != "ok %d" % int(a[1]):
@@ -207,4 +236,6 @@ from props import c03m_gen as _gen  # noqa: E402
 
 
 def gen(ctx, emit):
+    for line in KAT_LINES:
+        emit(line, "kat")
     _gen.gen(ctx, emit)
